@@ -215,3 +215,67 @@ Proof.
   eexists. split; [vm_compute; reflexivity|]. split; [reflexivity|]. split; [reflexivity|]. split; [repeat split|].
   vm_compute. discriminate.
 Qed.
+
+(* ==================================================================================================================
+   Phase 4: reported point count = number of distinct integrand evaluations, over the cache machine of C12, for every
+   history of evaluations and restarts (recalculate_frequently), composed with the driver's history arrays
+   ================================================================================================================== *)
+From SG Require Import Model.FunCache Model.DriverCount Proofs.FunCacheProofs Proofs.DriverCountProofs.
+
+Theorem C13_reported_count_is_distinct_evaluations :
+  forall (eval : point -> value) (olen : nat), (forall p, length (eval p) = olen) ->
+  forall vr st h, wf_history h = true -> cache st = true ->
+  reported eval olen vr st (DvPerform :: h) = evaluated_counts [] (DvPerform :: h).
+Proof. intros eval olen H vr st h. exact (reported_is_distinct_evaluations_from_perform eval olen H vr st h). Qed.
+Print Assumptions C13_reported_count_is_distinct_evaluations.
+
+Theorem C13_counts_never_decrease_across_restarts : forall h acc, no_perform h = true -> nondec (evaluated_counts acc h).
+Proof. exact evaluated_counts_nondecreasing. Qed.
+
+Theorem C13_driver_point_array_is_distinct_evaluations :
+  forall (eval : point -> value) (olen : nat), (forall p, length (eval p) = olen) ->
+  forall vr lim os s' h,
+  perform lim os = (s', true) -> wf_history h = true ->
+  map o_pts os = map Z.of_nat (reported eval olen vr init (DvPerform :: h)) ->
+  exists k, (k < length os)%nat /\ d_pts s' = map Z.of_nat (firstn (S k) (evaluated_counts [] (DvPerform :: h))).
+Proof. exact driver_point_array_is_distinct_evaluations. Qed.
+Print Assumptions C13_driver_point_array_is_distinct_evaluations.
+
+(* the two hypotheses of wf_history are necessary - the two defects found by the check, as witnesses:
+   (a) a surplus evaluation through eval_vectorized (before repair 7730064): evaluated, never counted;
+   (b) a restart that empties the cache (seeded change C13r4): the count drops below an earlier one *)
+Definition nv_eval (p : point) : value := [0%Qc].
+Definition nv_pt (z : Z) : point := [Q2Qc (z # 1)].
+Theorem C13_uncached_surplus_evaluation_refuted :
+  let h := [DvEval [OBatch [nv_pt 1; nv_pt 2]; OVec [nv_pt 3]]] in
+  reported nv_eval 1 fixed init (DvPerform :: h) = [2%nat] /\ evaluated_counts [] (DvPerform :: h) = [3%nat].
+Proof. split; vm_compute; reflexivity. Qed.
+Theorem C13_restart_emptying_the_cache_refuted :
+  let h := [DvEval [OBatch [nv_pt 1; nv_pt 2; nv_pt 3]]; DvRestart true; DvEval [OBatch [nv_pt 1; nv_pt 2]]] in
+  reported nv_eval 1 fixed init (DvPerform :: h) = [3%nat; 2%nat] /\ evaluated_counts [] (DvPerform :: h) = [3%nat; 3%nat].
+Proof. split; vm_compute; reflexivity. Qed.
+Example C13_nonvacuous_counts :
+  let h := [DvEval [OBatch [nv_pt 1; nv_pt 2; nv_pt 1]; OSingle (nv_pt 3)]; DvRestart false; DvEval [OBatch [nv_pt 1; nv_pt 2]; OBatch [nv_pt 4]]] in
+  wf_history h = true /\ reported nv_eval 1 cur init (DvPerform :: h) = [3%nat; 4%nat].
+Proof. split; vm_compute; reflexivity. Qed.
+
+(* solutions_storage: for every point count that occurred the dict holds the result of the LAST evaluation with that count, nothing
+   else, at most one entry per evaluation; composed with the driver: built from exactly the evaluations the run performed *)
+From SG Require Import Proofs.DriverStorage.
+Theorem C13_storage_holds_last_results : forall (A : Type) (kvs : list (Z * A)) k,
+  store_get k (storage_after kvs []) = last_with k kvs.
+Proof. intros A kvs. exact (storage_holds_last_results kvs). Qed.
+Theorem C13_storage_at_most_one_entry_per_evaluation : forall (A : Type) (kvs : list (Z * A)),
+  (length (storage_after kvs []) <= length kvs)%nat.
+Proof. intros A kvs. exact (storage_at_most_one_entry_per_evaluation kvs). Qed.
+Theorem C13_driver_storage : forall (A : Type) lim os (results : list A) s',
+  perform lim os = (s', true) -> length results = length os ->
+  exists k, (k < length os)%nat /\ d_pts s' = map o_pts (firstn (S k) os) /\
+    forall p, store_get p (storage_after (combine (d_pts s') (firstn (S k) results)) []) =
+              last_with p (combine (map o_pts (firstn (S k) os)) (firstn (S k) results)).
+Proof. intros A. exact (@driver_storage A). Qed.
+Print Assumptions C13_driver_storage.
+Example C13_nonvacuous_storage :
+  storage_after [(21, 1); (27, 2); (27, 3); (49, 4); (21, 5)] [] = [(21, 5); (27, 3); (49, 4)] /\
+  last_with 27 [(21, 1); (27, 2); (27, 3); (49, 4); (21, 5)] = Some 3 /\ last_with 30 [(21, 1); (27, 2)] = None.
+Proof. split; [reflexivity|]. split; reflexivity. Qed.
